@@ -14,7 +14,7 @@ FUNCTIONS = ['frappy.protocol.interface.{encode_msg_frame,get_msg,decode_msg}', 
 ASSUMPTIONS = ['request lines come from a catalogue of valid requests and byte-level mutations (invalid UTF-8, broken JSON, missing/extra fields, '
                'CR/LF variants, empty lines, a 5000 byte line, unknown and handler-colliding action names); which line is probed and where the '
                'stream is cut are decided by symbolic selectors; symbolic *strings* are the subject of the CrossHair part (C07_xh)',
-               'asynchronous messages splitting a line (two threads on the send lock) are outside the claim', 'clocks are fixed']
+               'asynchronous messages vs. the send lock: harness/C07_races.py', 'clocks are fixed']
 REQUIRED_TAGS = ['ok-reply', 'error-reply', 'segmented']
 LIMITS = {'quick': {'max_paths': 60000, 'max_s': 150}, 'thorough': {'max_paths': 600000, 'max_s': 900}}
 
